@@ -64,6 +64,12 @@ type row struct {
 	// produces: "ccert" = certificate sent as CompressedCertificate (brotli), "alps" / "alpsnew" = application_settings in
 	// EncryptedExtensions answered by a client EncryptedExtensions message
 	scripted string
+	// name: Config.ServerName of the client ("" = the PKI's name); insecure: no certificate verification (names the leaf does not cover)
+	name     string
+	insecure bool
+	// alpn2 (resumption pairs): the server's NextProtos for the SECOND connection when alpn2set (nil = none at all)
+	alpn2    []string
+	alpn2set bool
 }
 
 type result struct {
@@ -295,29 +301,53 @@ func triples(c *vh.Ctx, tag string) []triple {
 	return ts
 }
 
+// longName: a 253-character host name (the DNS maximum), labels of 63, mixed case
+var longName = strings.Repeat("a", 63) + "." + strings.Repeat("B", 63) + "." + strings.Repeat("c", 63) + "." + strings.Repeat("D", 53) + ".example"
+
 func run(c *vh.Ctx) {
 	p := hs.SharedPKI()
 	c.Extra["tree_has_ExtraEcdhe"] = treeFixed()
 	var rows []row
 	for pi, pr := range hs.Parrots() {
+		both := []string{"h2", "http/1.1"}
+		R := func(variant string, maxVers uint16, alpn []string) row {
+			return row{pi: pi, pr: pr, variant: variant, maxVers: maxVers, alpn: alpn}
+		}
+		with := func(r row, f func(*row)) row { f(&r); return r }
+		V13, V12 := uint16(tls.VersionTLS13), uint16(tls.VersionTLS12)
 		rows = append(rows,
-			row{pi, pr, "tls13", tls.VersionTLS13, nil, []string{"h2", "http/1.1"}, false, "", ""},
-			row{pi, pr, "hrr", tls.VersionTLS13, []tls.CurveID{tls.CurveP256}, []string{"h2", "http/1.1"}, false, "", ""},
-			row{pi, pr, "hrr384", tls.VersionTLS13, []tls.CurveID{tls.CurveP384}, []string{"http/1.1"}, false, "", ""},
-			row{pi, pr, "tls12", tls.VersionTLS12, nil, []string{"h2", "http/1.1"}, false, "", ""},
-			row{pi, pr, "alpn-http1", tls.VersionTLS13, nil, []string{"http/1.1"}, false, "", ""},
-			row{pi, pr, "alpn-none", tls.VersionTLS13, nil, nil, false, "", ""},
-			row{pi, pr, "alpn-none12", tls.VersionTLS12, nil, nil, false, "", ""},
-			row{pi, pr, "resume13", tls.VersionTLS13, nil, []string{"h2", "http/1.1"}, true, "", ""},
-			row{pi, pr, "resume12", tls.VersionTLS12, nil, []string{"h2", "http/1.1"}, true, "", ""},
-			row{pi, pr, "sni-remove", tls.VersionTLS13, nil, []string{"h2"}, false, "remove", ""},
-			row{pi, pr, "sni-ip", tls.VersionTLS13, nil, []string{"h2"}, false, "ip", ""},
-			row{pi, pr, "sni-nospec", tls.VersionTLS13, nil, []string{"h2"}, false, "nospec", ""},
-			row{pi, pr, "sni-remove12", tls.VersionTLS12, nil, []string{"h2"}, false, "remove", ""},
-			row{pi, pr, "scripted-ccert", tls.VersionTLS13, nil, []string{"h2"}, false, "", "ccert"},
-			row{pi, pr, "scripted-ccert-hrr", tls.VersionTLS13, []tls.CurveID{tls.CurveP256}, []string{"h2"}, false, "", "ccert"},
-			row{pi, pr, "scripted-alps", tls.VersionTLS13, nil, []string{"h2"}, false, "", "alps"},
-			row{pi, pr, "scripted-alpsnew", tls.VersionTLS13, nil, []string{"h2"}, false, "", "alpsnew"},
+			R("tls13", V13, both),
+			with(R("hrr", V13, both), func(r *row) { r.curves = []tls.CurveID{tls.CurveP256} }),
+			with(R("hrr384", V13, []string{"http/1.1"}), func(r *row) { r.curves = []tls.CurveID{tls.CurveP384} }),
+			R("tls12", V12, both),
+			R("alpn-http1", V13, []string{"http/1.1"}),
+			R("alpn-none", V13, nil),
+			R("alpn-none12", V12, nil),
+			// resumption pairs; the server's ALPN behaviour on the resumed connection: same / another protocol / none / one
+			// where the first connection had none
+			with(R("resume13", V13, both), func(r *row) { r.resume = true }),
+			with(R("resume13-alpn-other", V13, both), func(r *row) { r.resume, r.alpn2, r.alpn2set = true, []string{"http/1.1"}, true }),
+			with(R("resume13-alpn-none", V13, both), func(r *row) { r.resume, r.alpn2, r.alpn2set = true, nil, true }),
+			with(R("resume12", V12, both), func(r *row) { r.resume = true }),
+			with(R("resume12-alpn-other", V12, both), func(r *row) { r.resume, r.alpn2, r.alpn2set = true, []string{"http/1.1"}, true }),
+			with(R("resume12-alpn-none", V12, both), func(r *row) { r.resume, r.alpn2, r.alpn2set = true, nil, true }),
+			with(R("resume12-alpn-gain", V12, nil), func(r *row) { r.resume, r.alpn2, r.alpn2set = true, both, true }),
+			// server-name variants
+			with(R("sni-remove", V13, []string{"h2"}), func(r *row) { r.sni = "remove" }),
+			with(R("sni-ip", V13, []string{"h2"}), func(r *row) { r.sni, r.name, r.insecure = "ip", "127.0.0.1", true }),
+			with(R("sni-ip6", V13, []string{"h2"}), func(r *row) { r.sni, r.name, r.insecure = "ip", "[::1]", true }),
+			with(R("sni-nospec", V13, []string{"h2"}), func(r *row) { r.sni = "nospec" }),
+			with(R("sni-remove12", V12, []string{"h2"}), func(r *row) { r.sni = "remove" }),
+			with(R("sni-mixed-case", V13, []string{"h2"}), func(r *row) { r.sni, r.name = "name", "Verif.Example" }),
+			with(R("sni-upper-case12", V12, []string{"h2"}), func(r *row) { r.sni, r.name = "name", "VERIF.EXAMPLE" }),
+			with(R("sni-trailing-dot", V13, []string{"h2"}), func(r *row) { r.sni, r.name, r.insecure = "name", "Verif.Example.", true }),
+			with(R("sni-punycode", V13, []string{"h2"}), func(r *row) { r.sni, r.name, r.insecure = "name", "xn--Bcher-kva.XN--p1ai.example", true }),
+			with(R("sni-max-length", V12, []string{"h2"}), func(r *row) { r.sni, r.name, r.insecure = "name", longName, true }),
+			// flight shapes only the scripted server produces
+			with(R("scripted-ccert", V13, []string{"h2"}), func(r *row) { r.scripted = "ccert" }),
+			with(R("scripted-ccert-hrr", V13, []string{"h2"}), func(r *row) { r.scripted, r.curves = "ccert", []tls.CurveID{tls.CurveP256} }),
+			with(R("scripted-alps", V13, []string{"h2"}), func(r *row) { r.scripted = "alps" }),
+			with(R("scripted-alpsnew", V13, []string{"h2"}), func(r *row) { r.scripted = "alpsnew" }),
 		)
 	}
 	results := make([]*result, len(rows))
@@ -335,10 +365,10 @@ func run(c *vh.Ctx) {
 			if strings.HasPrefix(r.scripted, "alps") {
 				ccfg.ApplicationSettings = map[string][]byte{"h2": []byte("client-settings")}
 			}
-			if r.sni == "ip" {
-				ccfg.ServerName = "127.0.0.1"
-				ccfg.InsecureSkipVerify = true
+			if r.name != "" {
+				ccfg.ServerName = r.name
 			}
+			ccfg.InsecureSkipVerify = r.insecure
 			scfg := p.ServerConfig(r.alpn...)
 			scfg.MaxVersion = r.maxVers
 			if r.curves != nil {
@@ -353,7 +383,13 @@ func run(c *vh.Ctx) {
 					results[i] = first
 					return
 				}
-				second := connect(r, ccfg, scfg, tss[i])
+				scfg2 := scfg
+				if r.alpn2set {
+					// same ticket keys (the first connection initialised them; Clone carries them), other ALPN preferences
+					scfg2 = scfg.Clone()
+					scfg2.NextProtos = r.alpn2
+				}
+				second := connect(r, ccfg, scfg2, tss[i])
 				second.first = first
 				results[i] = second
 				return
@@ -382,6 +418,13 @@ func judge(c *vh.Ctx, r row, ts []triple, res *result) {
 	}
 	c.Count("handshake/" + r.variant)
 	cs, ss := res.client.state, res.server.state
+	if r.resume && res.first != nil {
+		in["first_connection_alpn"] = res.first.client.state.NegotiatedProtocol
+		in["server_alpn_second_connection"] = fmt.Sprint(map[bool]any{true: r.alpn2, false: r.alpn}[r.alpn2set])
+	}
+	if r.name != "" {
+		in["server_name"] = r.name
+	}
 	// ---- Go-side oracle, from the property text ----
 	cmp := func(field string, got, want any) {
 		if fmt.Sprint(got) != fmt.Sprint(want) {
@@ -436,29 +479,45 @@ func judge(c *vh.Ctx, r row, ts []triple, res *result) {
 		c.Count("ekm-unavailable-both-sides") // TLS 1.2 without extended_master_secret: both ends refuse
 	}
 
-	// ---- model: server name ----
+	// ---- model: server name (the server-name variants and the two plain rows; the other rows repeat the plain name) ----
 	key := name + "/" + r.variant
-	c.Case("name", fmt.Sprintf("(CName %s %s %s %s)", vh.Str(res.cfgName), res.sniItems, vh.Str(cs.ServerName), vh.Str(ss.ServerName)),
-		key, r.sni != "" || res.hasSNI, map[string]any{"in": in, "client": cs.ServerName, "server": ss.ServerName, "wire": res.wireSNI})
+	if r.sni != "" || r.variant == "tls13" || r.variant == "tls12" {
+		c.Case("name", fmt.Sprintf("(CName %s %s %s %s)", vh.Str(res.cfgName), res.sniItems, vh.Str(cs.ServerName), vh.Str(ss.ServerName)),
+			key, r.sni != "" || res.hasSNI, map[string]any{"in": in, "client": cs.ServerName, "server": ss.ServerName, "wire": res.wireSNI})
+	}
+	if r.sni != "" {
+		return // the negotiated parameters of these rows are those of the plain rows
+	}
 
 	// ---- model: negotiated parameters ----
+	obs := func(s tls.ConnectionState, curve uint16) string {
+		return fmt.Sprintf("(mkObsState %d %d %d %s %s)", s.Version, s.CipherSuite, curve, vh.Str(s.NegotiatedProtocol), vh.Bool(s.DidResume))
+	}
+	hr := &hs.Result{View: res.view, KeyShareKeys: res.keys, HasCompressCertExt: res.ccExt}
+	view := hs.ViewTerm(hr)
+	sample := map[string]any{"in": in, "version": cs.Version, "suite": cs.CipherSuite, "curve": res.client.curve, "alpn": cs.NegotiatedProtocol, "resumed": cs.DidResume}
+	if cs.Version != tls.VersionTLS13 && (cs.DidResume || ss.DidResume) {
+		// TLS <= 1.2 resumption: Transcript.client_resume12 on the abbreviated ServerHello and the session cached by the first connection
+		sh2, sh1 := lastServerHello(res.serverMsg), (*srvHello)(nil)
+		if res.first != nil {
+			sh1 = lastServerHello(res.first.serverMsg)
+		}
+		if sh1 == nil || sh2 == nil {
+			c.Count("flight-not-parsed")
+			return
+		}
+		fs := res.first.client.state
+		c.Case("resume12", fmt.Sprintf("(CResume12 %s %d %d %s %s %s %s %s)", view, fs.Version, fs.CipherSuite, vh.Bool(sh1.ems), vh.Bool(sh2.ems),
+			helloTerm(sh2), obs(cs, res.client.curve), obs(ss, res.server.curve)), key, true, sample)
+		return
+	}
 	fl, ok := flightTerm(res, ss, r.scripted == "ccert")
 	if !ok {
 		c.Count("flight-not-parsed")
 		return
 	}
-	if cs.Version != tls.VersionTLS13 && cs.DidResume {
-		c.Count("state-tls12-resumption-outside-model")
-		return
-	}
-	hr := &hs.Result{View: res.view, KeyShareKeys: res.keys, HasCompressCertExt: res.ccExt}
-	view := hs.ViewTerm(hr)
 	if res.view.PSKIdentities > 0 && res.first != nil {
 		view = strings.TrimSuffix(view, " 0)") + fmt.Sprintf(" %d)", res.first.client.state.CipherSuite)
 	}
-	obs := func(s tls.ConnectionState, curve uint16) string {
-		return fmt.Sprintf("(mkObsState %d %d %d %s %s)", s.Version, s.CipherSuite, curve, vh.Str(s.NegotiatedProtocol), vh.Bool(s.DidResume))
-	}
-	c.Case("state", fmt.Sprintf("(CState %s %s %s %s %s %s)", vh.Bool(treeFixed()), view, res.shape, fl, obs(cs, res.client.curve), obs(ss, res.server.curve)), key, true,
-		map[string]any{"in": in, "version": cs.Version, "suite": cs.CipherSuite, "curve": res.client.curve, "alpn": cs.NegotiatedProtocol, "resumed": cs.DidResume})
+	c.Case("state", fmt.Sprintf("(CState %s %s %s %s %s %s)", vh.Bool(treeFixed()), view, res.shape, fl, obs(cs, res.client.curve), obs(ss, res.server.curve)), key, true, sample)
 }
